@@ -188,12 +188,13 @@ func (db *DB) search(key types.Key) ([]byte, bool) {
 	return nil, false
 }
 
-func (db *DB) rawset(entry types.Entry) {
+// rawset applies all entries to the same memtable with a single wal write
+func (db *DB) rawset(entries ...types.Entry) {
 	db.mu.RLock()
 	mt := db.memtable
 	db.mu.RUnlock()
 
-	mt.set(entry)
+	mt.setBatch(entries)
 
 	if mt.size() >= db.config.MemtableByteThreshold {
 		mt.freeze()
